@@ -56,13 +56,14 @@ PROPS = {
     "C31": {
         "props": ["LachesisVerif.Props.C31"],
         "streams": ["piecefunc"],
-        "claim": "Proof (partial): NewFunc accepts exactly the valid dot lists; Get returns first/last Y outside, each dot's Y exactly at its X, "
-                 "stays within [min-1, max] of the neighbouring Ys and never overflows uint64 (equals the formula over naturals), for every valid "
-                 "list and every x. Not proved: the |dY|/10^6+2 distance to the exact interpolation. Correspondence: bit-exact comparison with the real code.",
+        "claim": "Proof: NewFunc accepts exactly the valid dot lists; Get returns first/last Y outside, each dot's Y exactly at its X, "
+                 "stays within [min-1, max] of the neighbouring Ys, never overflows uint64 (equals the formula over naturals) and is within "
+                 "|dY|/10^6+2 of the exact rational interpolation (near_linear, division-free: |Get*D*10^6 - L*D*10^6| <= (|dY|+2*10^6)*D), "
+                 "for every valid list and every x. Correspondence: bit-exact comparison with the real code.",
         "note": "Trusted: Lean kernel, extractor (constants, Mul, Div, all comparisons, final sum), harness. uint64 modelled modulo 2^64. "
                 "The piece search is modelled as index recursion with fuel = len(dots).",
         "trusted": ["go/cmd/extract (DecimalUnit, maxVal, Mul, Div, NewFunc and Get conditions)", "harness stream piecefunc"],
-        "assumptions": ["near-linearity clause not covered by a theorem"],
+        "assumptions": [],
     },
     "C32": {
         "props": ["LachesisVerif.Props.C32"],
